@@ -143,6 +143,32 @@ def rule_r2(rep, program: Program):
         else:
             ident = a * a + b * b
             r.inst({"a": repr(a), "b": repr(b), "a^2+b^2": repr(ident)})
+            # coefficients cached in other attributes at construction time
+            cached = [sy for sy in (a.symbols() | b.symbols()) if sy.startswith("self.") and sy != coeff]
+            if cached and not ident.equals(Rat.const(1)):
+                init = k.methods["__init__"]
+                ienv = SymEnv({})
+                for st in init.body_without_docstring():
+                    if isinstance(st, ast.Assign) and len(st.targets) == 1 and isinstance(st.targets[0], ast.Attribute):
+                        try:
+                            ienv.exec(st)
+                        except AnalysisError:
+                            pass
+                sub = {sy: ienv.env[sy] for sy in cached if sy in ienv.env}
+                if coeff in ienv.env:
+                    sub[coeff] = ienv.env[coeff]
+                if set(cached) <= set(sub):
+                    ident2 = ident.subs_many(sub)
+                    if ident2.equals(Rat.const(1)):
+                        # correct at construction; stale if the public coefficient can be reassigned alone
+                        attr = coeff.split(".", 1)[1]
+                        prop = k.resolve(attr)
+                        setter = any(attr in c2.setters for c2 in k.mro)
+                        if prop is None and not setter:
+                            r.violate(PROP, f"{f.qualname}:stale-cached-coefficient:{sorted(cached)}", f"the weight of the old momentum is read from {sorted(cached)}, computed once in the constructor, while the weight of the fresh draw reads the public attribute `{attr}` live: after `transition.{attr} = c` the update uses a(c0)*mom + c*n with a(c0)^2 + c^2 != 1 and no longer preserves N(0, M)", node=part, file=f.file)
+                            ident, b = Rat.const(1), Rat.sym(coeff)
+                        else:
+                            raise AnalysisError(f"{f.qualname}: coefficients cached in {sorted(cached)} behind a property/setter - consistency cannot be decided")
             if not ident.equals(Rat.const(1)):
                 r.violate(PROP, f"{f.qualname}:a2+b2={ident!r}"[:150], f"the refresh mom' = ({a!r})*mom + ({b!r})*n has a^2 + b^2 = {ident!r} != 1: the N(0, M) momentum law is not preserved", node=part, file=f.file)
             if not b.equals(Rat.sym(coeff)):
